@@ -134,7 +134,7 @@ func init() {
 	engine.Register(&engine.Check{
 		ID:    "C19",
 		Level: "model_checking",
-		Rule: "explicit-state search over IKEPayloadContainer (and the nested proposal / transform / selector / attribute containers): ops = every Build* function with representative arguments, applied from every prior container content of depth <= 2 (quick) / 3 (thorough); a reference list model is advanced in parallel. After every op: the container projects to model ++ [expected payload], every earlier payload has an unchanged dump, and the encoding of the container is accepted by the strict reference parser and parses to the model (3GPP layouts included). " +
+		Rule: "explicit-state search over IKEPayloadContainer (and the nested proposal / transform / selector / attribute containers): ops = every Build* function with representative arguments, applied from every prior container content of depth <= 2 (quick) / 4 (thorough); a reference list model is advanced in parallel. After every op: the container projects to model ++ [expected payload], every earlier payload has an unchanged dump, and the encoding of the container is accepted by the strict reference parser and parses to the model (3GPP layouts included). " +
 			"Argument sweeps from the empty container: NAS PDUs 1..64 ∪ {65520..65536, 70000}, QFI lists 0..300 × flags × DSCP, PDU session id 0..255, dotted quads, ports, octet strings around the 16-bit limit, all 256 exchange types × 4 flag combinations × SPI/message-id patterns for NewHeader/NewMessage. Oversize arguments: an error (at build or at encode), never a truncated length field. distinct_nontrivial = distinct container encodings verified against the model",
 		Assumptions: []string{"TS 24.502 layouts are taken as listed in the property statement (5G_QOS_INFO length octet counts the whole value including itself; DSCPI = bit 1, DCSI = bit 2)"},
 		Run:         runC19,
@@ -159,7 +159,7 @@ func runC19(c *engine.Ctx) {
 	ops := c19Ops()
 	depth := 2
 	if c.Thorough() {
-		depth = 3
+		depth = 4
 	}
 	var rec func(hist []int)
 	rec = func(hist []int) {
